@@ -169,7 +169,7 @@ type lcPlan struct {
 func lcPlanFor(prop, tier string) lcPlan {
 	switch {
 	case prop == "C07" && tier == "thorough":
-		return lcPlan{gen.EnumParams{MaxAdds: []int{4, 3, 2}}, 300000}
+		return lcPlan{gen.EnumParams{MaxAdds: []int{4, 3, 2}}, 800000}
 	case prop == "C07":
 		return lcPlan{gen.EnumParams{MaxAdds: []int{3, 2, 2}}, 20000}
 	case tier == "thorough":
